@@ -140,7 +140,7 @@ def classify(case, r):
         return 'agree', ''
     return 'disagree', 'impl=%s model=%s' % (impl[:300], model[:300])
 
-_UNORDERED = re.compile(r'\*\*|(?:^|[.(\[{,;:?|=<>&+\-/%!~^])\s*\*|\$keys|\$each|\$spread|\$sift|\$merge|\$lookup|\$shuffle|\$random|\$now|\$millis')
+_UNORDERED = re.compile(r'\*\*|(?:^|[.(\[{,;:?|=<>&+\-/%!~^]|\b(?:in|and|or))\s*\*|\$keys|\$each|\$spread|\$sift|\$merge|\$lookup|\$shuffle|\$random|\$now|\$millis')
 _SELF_UPDATE = re.compile(r'\|[^|]*\|[^|]*\$(?![A-Za-z_$])')
 
 def _has_null(d):
